@@ -23,6 +23,7 @@ from concurrent.futures import ThreadPoolExecutor
 from typing import Any
 
 import vlib
+from extractors import t15
 
 # C extension compiled in every run against <repo>/mypyc/lib-rt: marshalling only, every operation is the real primitive
 RAW_C_SRC = r'''#include <Python.h>
@@ -136,6 +137,7 @@ BIN = [("add", "+"), ("sub", "-"), ("mul", "*"), ("fdiv", "//"), ("mod", "%"), (
        ("xor", "^"), ("shl", "<<"), ("shr", ">>")]
 CMPS = [("eq", "=="), ("ne", "!="), ("lt", "<"), ("le", "<="), ("gt", ">"), ("ge", ">=")]
 PYOP = dict(BIN + CMPS)
+MAGIC: dict[str, int] = {"i64": -113, "i32": -113, "i16": -113, "u8": 239, "float": -113}   # refreshed from rtypes.py by T
 MAX_SHIFT = 300          # left-shift counts above this are only used with the S oracle on "huge" counts
 
 
@@ -195,12 +197,12 @@ def gen_module() -> tuple[str, dict[str, dict[str, Any]]]:
         add(f"mc_{n}_int_bool", ["int", "bool"], "bool", f"a {o} b", kind="mixedcmp", op=n, conv=[None, None], T="int")
     # literal operands (short-int fast paths of compare_tagged, inline_fixed_width_divide/mod, // by 2^k -> >>)
     lits = [("add", 1), ("sub", 1), ("mul", 3), ("fdiv", 3), ("fdiv", -3), ("fdiv", 4), ("fdiv", 1), ("fdiv", -1),
-            ("mod", 3), ("mod", -3), ("mod", 4), ("mod", -1), ("shl", 3), ("shr", 3), ("and", 255), ("or", 1), ("xor", -1)]
+            ("mod", 3), ("mod", -3), ("mod", 4), ("mod", -1), ("mod", -200), ("fdiv", 2), ("mul", -1), ("shl", 3), ("shr", 3), ("and", 255), ("or", 1), ("xor", -1)]
     for T in ["int", "i64", "i32", "i16"]:
         for n, k in lits:
             nm = f"l_{n}_{str(k).replace('-', 'm')}_{T}"
             add(nm, [T], T, f"a {PYOP[n]} {k}" if k >= 0 else f"a {PYOP[n]} ({k})", kind="lit", op=n, k=k, T=T, side="r")
-        for n, k in [("sub", 1), ("fdiv", 7), ("mod", 7), ("fdiv", -7), ("mod", -7), ("shl", 1), ("shr", 1048576), ("shr", -1048576)]:
+        for n, k in [("sub", 1), ("fdiv", 7), ("mod", 7), ("fdiv", -7), ("mod", -7), ("shl", 1), ("shr", 1048576), ("shr", -1048576), ("mod", -113), ("fdiv", -226), ("sub", -113)]:
             if T == "i16" and abs(k) > 32767:
                 continue
             nm = f"r_{n}_{str(k).replace('-', 'm')}_{T}"
@@ -208,7 +210,7 @@ def gen_module() -> tuple[str, dict[str, dict[str, Any]]]:
         for n, k in [("eq", 0), ("ne", 0), ("lt", 10), ("le", -1), ("gt", 0), ("ge", 100), ("eq", -1)]:
             nm = f"lc_{n}_{str(k).replace('-', 'm')}_{T}"
             add(nm, [T], "bool", f"a {PYOP[n]} {k}" if k >= 0 else f"a {PYOP[n]} ({k})", kind="litcmp", op=n, k=k, T=T, side="r")
-    for n, k in [("add", 1), ("mul", 3), ("fdiv", 3), ("mod", 3), ("shr", 3), ("and", 15)]:
+    for n, k in [("add", 1), ("mul", 3), ("fdiv", 3), ("mod", 3), ("shr", 3), ("and", 15), ("mod", 240), ("fdiv", 1), ("xor", 255), ("sub", 17)]:
         add(f"l_{n}_{k}_u8", ["u8"], "u8", f"a {PYOP[n]} {k}", kind="lit", op=n, k=k, T="u8", side="r")
     # conversions
     for T in FW:
@@ -246,7 +248,7 @@ def gen_module() -> tuple[str, dict[str, dict[str, Any]]]:
 
 
 CHILD = r'''
-import sys, json, importlib, warnings
+import sys, json, importlib, warnings, os
 warnings.simplefilter("ignore")
 def enc(v):
     if isinstance(v, bool): return "B 1" if v else "B 0"
@@ -260,7 +262,7 @@ def call(f, a):
     except BaseException as e:
         return "E " + type(e).__name__
 def main():
-    moddir, refdir, jobfile, outfile = sys.argv[1:5]
+    moddir, refdir, jobfile, outfile, progfile, trace = sys.argv[1:7]
     sys.set_int_max_str_digits(0)
     jobs = json.load(open(jobfile))
     sys.path.insert(0, moddir)
@@ -270,16 +272,23 @@ def main():
     ref = importlib.import_module("c15ref")
     assert ref.__file__.endswith(".py"), ref.__file__
     spec = jobs["spec"]
-    out = {}
+    out = open(outfile, "w")
+    prog = os.open(progfile, os.O_WRONLY | os.O_CREAT | os.O_TRUNC)
     for name, cases in jobs["cases"].items():
+        # the operation in flight is always on disk before it runs: function name (and, when tracing, the case index)
+        os.write(prog, ("F %s\n" % name).encode())
         fc, fr = getattr(comp, name), getattr(ref, name)
         isf = [t == "float" for t in spec[name]]
         res = []
-        for a in cases:
+        for i, a in enumerate(cases):
             a = [float.fromhex(x) if f else x for x, f in zip(a, isf)]
-            res.append([call(fc, a), call(fr, a)])
-        out[name] = res
-    json.dump(out, open(outfile, "w"))
+            r = call(fr, a)
+            if trace == "1":
+                os.write(prog, ("I %d\n" % i).encode())
+            res.append([call(fc, a), r])
+        out.write(json.dumps({"name": name, "res": res}) + "\n")
+        out.flush()
+    os.write(prog, b"DONE\n")
 main()
 '''
 
@@ -335,19 +344,62 @@ class Build:
             f.write(self.src)
         return d
 
-    def run_child(self, moddir: str, cases: dict[str, list[list[Any]]], tag: str) -> dict[str, list[list[str]]] | None:
+    def _child_once(self, moddir: str, cases: dict[str, list[list[Any]]], tag: str, trace: bool) -> tuple[int, str, dict[str, list[list[str]]], list[str]]:
         job = os.path.join(self.dir, f"job-{tag}.json")
-        outp = os.path.join(self.dir, f"out-{tag}.json")
+        outp = os.path.join(self.dir, f"out-{tag}.jsonl")
+        prog = os.path.join(self.dir, f"progress-{tag}.txt")
         child = os.path.join(self.dir, "child.py")
         with open(child, "w") as f:
             f.write(CHILD)
         with open(job, "w") as f:
             json.dump({"spec": {k: v["args"] for k, v in self.fn.items()}, "cases": cases}, f)
-        st, out = vlib.sh([vlib.PY, child, moddir, self.ref_dir(), job, outp], env=vlib.py_env(), timeout=3000)
-        if st != 0:
-            self.ctx.broke("C", f"compiled-module runner ({tag})", f"status {st}:\n{out[-3000:]}")
-            return None
-        return json.load(open(outp))
+        for pth in (outp, prog):
+            if os.path.exists(pth):
+                os.remove(pth)
+        st, out = vlib.sh([vlib.PY, child, moddir, self.ref_dir(), job, outp, prog, "1" if trace else "0"], env=vlib.py_env(), timeout=3000)
+        res: dict[str, list[list[str]]] = {}
+        if os.path.exists(outp):
+            for ln in open(outp):
+                try:
+                    d = json.loads(ln)
+                    res[d["name"]] = d["res"]
+                except ValueError:
+                    pass      # truncated last line of a process that died
+        progress = open(prog).read().split("\n") if os.path.exists(prog) else []
+        return st, out, res, [x for x in progress if x]
+
+    def run_child(self, moddir: str, cases: dict[str, list[list[Any]]], tag: str) -> dict[str, list[list[str]]] | None:
+        """Run every case through the compiled module and the interpreted twin.  If the process dies (signal), the
+        operation in flight is identified (progress file, then a traced re-run of that function), reported as a
+        violation, and the run continues with the remaining functions."""
+        remaining = dict(cases)
+        results: dict[str, list[list[str]]] = {}
+        for attempt in range(12):
+            st, out, res, progress = self._child_once(moddir, remaining, tag, False)
+            results.update(res)
+            if st == 0:
+                return results
+            fl = [x[2:] for x in progress if x.startswith("F ")]
+            if st > 0 and st != 124 and "Traceback" in out or not fl:
+                self.ctx.broke("C", f"compiled-module runner ({tag})", f"status {st}:\n{out[-3000:]}")
+                return results or None
+            bad = fl[-1]
+            st2, out2, _, prog2 = self._child_once(moddir, {bad: remaining[bad]}, tag + "-trace", True)
+            idx = [int(x[2:]) for x in prog2 if x.startswith("I ")]
+            args = remaining[bad][idx[-1]] if idx and st2 != 0 else None
+            f = self.fn[bad]
+            sig = -st if st < 0 else st
+            self.ctx.violation(f"crash:{bad}:{','.join(str(x) for x in args) if args is not None else '?'}",
+                               f"the compiled module crashed the interpreter (status {st}, signal {sig}) while executing {bad}{tuple(args) if args is not None else '(?)'} "
+                               f"[`{f['expr']}`, {tag}]; CPython evaluates the same operation normally",
+                               {"kind": "compiled_crash", "function": bad, "expr": f["expr"], "arg_types": f["args"], "ret": f["ret"],
+                                "args": [str(x) for x in args] if args is not None else None, "status": st, "build": tag,
+                                "source": f"def {bad}(...) -> {f['ret']}: return {f['expr']}", "reproduced_in_traced_rerun": st2 != 0})
+            for k in list(remaining):
+                if k in results or k == bad:
+                    del remaining[k]
+        self.ctx.broke("C", f"compiled-module runner ({tag})", "more than 12 crashing functions; giving up")
+        return results
 
 
 # ------------------------------------------------------------------ operand sets
@@ -355,6 +407,8 @@ class Build:
 def boundary_ints() -> list[int]:
     vals = {0, 1, -1, 2, -2, 3, -3, 7, -7, 10, -10, 63, 64, 65, -63, -64, -65, 2 ** 30, 2 ** 30 - 1, -2 ** 30, 2 ** 61, -2 ** 61,
             2 ** 61 - 1, 2 ** 100 + 12345, -(2 ** 100) - 12345, 3 * 2 ** 61, -3 * 2 ** 61}
+    for m in set(MAGIC.values()):
+        vals |= {m - 1, m, m + 1, -m, ~m}
     for k in (7, 8, 15, 16, 31, 32, 62, 63, 64):
         for d in (-1, 0, 1):
             vals.add(2 ** k + d)
@@ -609,7 +663,107 @@ def in_rng(T: str, v: int) -> bool:
     return T == "int" or FW[T][0] <= v < FW[T][1]
 
 
+PYF = {"add": lambda x, y: x + y, "sub": lambda x, y: x - y, "mul": lambda x, y: x * y, "fdiv": lambda x, y: x // y,
+       "mod": lambda x, y: x % y, "and": lambda x, y: x & y, "or": lambda x, y: x | y, "xor": lambda x, y: x ^ y,
+       "shl": lambda x, y: x << y if 0 <= y < 64 else None, "shr": lambda x, y: x >> y if 0 <= y < 64 else None}
+
+
+def magic_candidates(m: int) -> list[int]:
+    c = {m, -m, ~m, m - 1, m + 1, 0, 1, -1, 256 - m, 255 - m, 2 * m, 2 * m + 1, -2 * m}
+    ks = list(range(-12, 13)) + [16, 100, 113, 114, 200, 239, 240, 255, 256, -114, -200, -240, -256, 1000, -1000, 2 ** 15, -2 ** 15, 2 ** 31, -2 ** 31, -2 ** 63]
+    for k in ks:
+        c |= {m + k, m - k, m ^ k, m | (k & 0xFF), m & ~(k & 0xFF), k}
+        if k:
+            for r in {0, 1, -1, abs(k) - 1, 1 - abs(k), m}:
+                c.add(m * k + r)
+                c.add(m + k * r)
+        if 0 <= k < 12:
+            c |= {m << k, (m << k) + (1 << k) - 1, (m << k) + 1}
+    return sorted(c)
+
+
+def magic_solutions(f: dict[str, Any], T: str, ms: list[int], limit: int = 12) -> list[list[int]]:
+    """Operands (in range of T) for which the EXACT result of the function is an error value of a native type."""
+    lo, hi = FW[T]
+    op = f["op"]
+    out: list[list[int]] = []
+    for m in ms:
+        if not (lo <= m < hi) and T != "u8":
+            continue
+        cand = [v for v in magic_candidates(m) if lo <= v < hi]
+        ys = [v for v in cand if abs(v) <= 2 ** 16 or v in (lo, hi - 1)]
+        sols: list[list[int]] = []
+        want = (lambda r: r is not None and (r == m or (T == "u8" and r % 256 == m)))  # noqa
+        try:
+            if f["kind"] == "un":
+                g = {"neg": lambda x: -x, "inv": lambda x: ~x, "pos": lambda x: x}.get(op)
+                sols = [[x] for x in cand if g is not None and want(g(x))]
+            elif f["kind"] in ("lit", "litcmp"):
+                if op in PYF:
+                    k = f["k"]
+                    g2 = (lambda x: PYF[op](x, k)) if f["side"] == "r" else (lambda x: PYF[op](k, x))  # noqa
+                    for x in cand:
+                        try:
+                            if want(g2(x)):
+                                sols.append([x])
+                        except ZeroDivisionError:
+                            pass
+            else:
+                for x in cand:
+                    for y in ys:
+                        try:
+                            if want(PYF[op](x, y)):
+                                sols.append([x, y])
+                        except ZeroDivisionError:
+                            pass
+        except KeyError:
+            pass
+        # spread over distinct second operands
+        seen: set[int] = set()
+        pick = []
+        for sl in sols:
+            key = sl[-1]
+            if key not in seen or len(sols) <= limit:
+                seen.add(key)
+                pick.append(sl)
+        out += pick[:limit]
+    return out
+
+
 def make_cases(ctx: vlib.Ctx, fn: dict[str, dict[str, Any]], rng: vlib.Rng) -> dict[str, list[list[Any]]]:
+    cases = make_cases0(ctx, fn, rng)
+    ms = sorted(set(MAGIC.values()))
+    nmag = 0
+    without: list[str] = []
+    for name, f in fn.items():
+        T = f.get("T")
+        if T in FW and f["kind"] in ("bin", "un", "lit", "mixed") and f.get("op") in list(PYF) + ["neg", "inv", "pos"]:
+            if f["kind"] == "mixed" and not all(t in FW or t == "int" for t in f["args"]):
+                continue
+            sols = magic_solutions(f, T, ms)
+            got = {tuple(c) for c in cases[name]}
+            sols = [sl for sl in sols if tuple(sl) not in got]
+            cases[name] += sols
+            nmag += len(sols)
+            if not any(True for _ in magic_solutions(f, T, [MAGIC[T]], 1)):
+                without.append(name)
+    for name, extra in (("f_add", [(-112.0, -1.0)]), ("f_sub", [(-112.0, 1.0)]), ("f_mul", [(113.0, -1.0)]), ("f_truediv", [(-226.0, 2.0)]),
+                        ("f_fdiv", [(-226.0, 2.0), (-225.5, 2.0)]), ("f_mod", [(-113.0, -200.0), (87.0, -200.0)]), ("f_pow", [(-113.0, 1.0)]),
+                        ("f_neg", [(113.0,)]), ("f_abs", [(-113.0,)])):
+        m = float(MAGIC["float"])
+        sc = m / -113.0
+        cases[name] += [[(v * sc).hex() for v in e] for e in extra]
+        nmag += len(extra)
+    for name, extra in (("f_int_truediv", [[2 * MAGIC["float"], 2], [MAGIC["float"], 1]]), ("f_from_int", [[MAGIC["float"]]]), ("f_from_i64", [[MAGIC["float"]]]),
+                        ("f_to_int", [[float(MAGIC["float"]).hex()]]), ("f_to_i64", [[float(MAGIC["float"]).hex()]])):
+        cases[name] += extra
+        nmag += len(extra)
+    ctx.cov["cases_with_exact_result_equal_to_error_value"] = nmag
+    ctx.cov["native_functions_whose_result_cannot_equal_the_error_value_for_any_candidate_operand"] = without
+    return cases
+
+
+def make_cases0(ctx: vlib.Ctx, fn: dict[str, dict[str, Any]], rng: vlib.Rng) -> dict[str, list[list[Any]]]:
     B = boundary_ints()
     cases: dict[str, list[list[Any]]] = {}
     nint = ctx.n(1500, 30000)         # random pairs per int operator
@@ -901,7 +1055,9 @@ def module_stage(ctx: vlib.Ctx, bld: Build, model: Model | None, rng: vlib.Rng, 
         nbad_c = 0
         for name, cs in cases.items():
             f = fn[name]
-            rs = res[name]
+            rs = res.get(name)
+            if rs is None:          # the function crashed the interpreter: reported by run_child
+                continue
             dist[f["kind"]] = dist.get(f["kind"], 0) + len(cs)
             for i, (a, (comp, ref)) in enumerate(zip(cs, rs)):
                 # ---- S: the property's own oracle, compiled vs CPython
@@ -961,6 +1117,8 @@ def module_stage(ctx: vlib.Ctx, bld: Build, model: Model | None, rng: vlib.Rng, 
         ctx.cov[f"model_vs_compiled_disagreements_opt{opt}"] = nbad_c
         if opt == "0":
             for nm in ("b_fdiv_int", "b_shl_int", "b_mod_i64", "cv_u8"):
+                if nm not in res:
+                    continue
                 cs = cases[nm]
                 j = len(cs) // 3
                 ctx.sample({"fn": nm, "expr": fn[nm]["expr"], "args": [str(x)[:30] for x in cs[j]], "compiled": res[nm][j][0][:40], "cpython": res[nm][j][1][:40],
@@ -991,6 +1149,16 @@ def run(ctx: vlib.Ctx) -> None:
         "refcounts / memory safety of the primitives are out of scope here (C06)",
         "extraction: ExtrOcamlBasic only; driver tools/ocaml/c15_driver.ml + zio.ml (I/O only); raw extension RAW_C_SRC in tools/harness/C15.py (marshalling only)",
     ]
+    # T: error values + declared error kinds of the native-returning primitives -> coq/gen/C15ErrKinds.v
+    global MAGIC
+    try:
+        t15.generate()
+        mv = t15.magic_values()
+        MAGIC = {"i64": mv["int64_t"], "i32": mv["int32_t"], "i16": mv["int16_t"], "u8": mv["uint8_t"], "float": mv["double"]}
+        ctx.cov["error_values_from_rtypes"] = MAGIC
+        ctx.cov["error_kind_table_rows"] = len(t15.table())
+    except Exception as e:  # noqa
+        ctx.broke("T", "t15 extractor (error values / error kinds)", repr(e))
     bld = Build(ctx)
     pool = ThreadPoolExecutor(max_workers=3)
     try:
@@ -998,7 +1166,7 @@ def run(ctx: vlib.Ctx) -> None:
         t0 = time.time()
         fut_raw = pool.submit(bld.build_raw)
         fut_mods = [pool.submit(bld.build_mod, o) for o in ("0", "3")]
-        ctx.prove("C15/Properties.v", ["C15", "lib"])
+        ctx.prove("C15/Properties.v", ["C15", "gen", "lib"])
         exe = vlib.build_extracted("c15", "C15/Extract.v", "tools/ocaml/c15_driver.ml")
         model = Model(exe) if exe else None
         if exe is None:
@@ -1022,7 +1190,7 @@ def replay(ctx: vlib.Ctx, path: str) -> None:
     d = json.load(open(path))
     print(json.dumps(d, indent=1)[:3000])
     r = d.get("replay", {})
-    if r.get("kind") == "compiled_vs_cpython":
+    if r.get("kind") in ("compiled_vs_cpython", "compiled_crash"):
         print(f"\nTo reproduce by hand: compile with mypyc a module containing\n  from mypy_extensions import i64, i32, i16, u8\n  {r['source']}\n"
               f"with parameter types {r['arg_types']}, call it with {r['args']} and compare with the interpreted result.")
     run(ctx)
